@@ -30,6 +30,16 @@ CLAIMED = {
    text='Whole property: 2 copies x 256 instruction bytes x reset x all outputs/next-states are identical canonical terms over symbolic registers and read data, plus interface/sensitivity agreement. Exhaustive over the byte grid and symbolic over state, so it covers every input and state; nothing in the build elaborates processor.v.',
    note='Trusted: Verilator elaboration; term normaliser. 2-state semantics (sv2v X constants must cancel).',
    ref='DESIGN.md section 5, C16'),
+ 'C04': dict(
+   technique='static analysis: interval x bit-slice abstract interpretation (trace partitioning by dynamic interval splitting) of Parser::parseInteger, numNibbles, InstrImm::getSize and the instruction branch of CodeGen::emitProgramBin (clang AST); emitted bytes folded with the ISA prefix rule as bit vectors',
+   text='Whole property: the int range is partitioned into value classes on which every branch of the sizing/encoding code is uniform (classes are split until it is); per class x 12 mnemonics the check shows no UB, a well-formed prefix chain of getSize() bytes with the right opcodes, and bit-for-bit reconstruction of the operand by the ISA prefix rule; both literal spellings are mapped onto int32 exactly. The partition covers all 2^32 values, which the suite (a few hundred values) cannot.',
+   note='Trusted: clang AST; the abstract interpreter (conditions must be uniform on a class else it is split; UB recorded per class); ISA prefix rule. Assumes two\'s complement and arithmetic >> on negative ints (true for the build compilers).',
+   ref='DESIGN.md section 5, C04'),
+ 'C05': dict(
+   technique='static analysis: abstract interpretation (intervals x low-bit congruence x affine forms) of CodeGen::resolveLabels / the CodeGen constructor / emitProgramBin on abstract directive sequences built by interpreting the directive constructors; a must-record CFG rule for the fixed-point exit; AST rule for the relative/absolute table',
+   text='Clauses, each a necessary condition: (R1) the layout loop cannot be left while an operand may be stale (CFG must-record rule) plus a two-reference template over all gap classes; (R2) every InstrLabel construction classifies its mnemonic as the ISA does; (R3) absolute references yield the word address when aligned and are rejected otherwise, for all residues; (R4) a label before DATA names the aligned word; (R5) layout offsets == bytes emitted == emitter\'s running offset == recorded symbol offsets for every directive kind/sequence x start residue; (R6) header length word; (R7) relative references are self-consistent and survive their encoding for every forward/backward gap class up to 2^22. Offsets are symbolic (start + constant), so each verdict covers all program sizes.',
+   note='NOT decided: termination of the layout iteration for every program (the repaired code grows encodings monotonically, which bounds the passes, but the check does not prove it) and programs with more than two mutually dependent references beyond the CFG rule. Trusted: clang AST, interpreter, pc-relative/absolute tables of the property.',
+   ref='DESIGN.md section 5, C05'),
 }
 
 NOT_YET = 'engine not finished yet in this round (DESIGN.md section 7 build order); no check is registered, nothing is claimed'
